@@ -33,6 +33,18 @@ CHECKS = {
    technique="deterministic simulation family S-C: capture-only generation followed recursively from the engine's own successors (as quiescence does) with the referee position carried alongside",
    text="Capture-only chains up to 6 plies deep from every walk position (and below ordinary successors) are compared node by node with the referee's legal captures and resulting positions.",
    note=SC_NOTE),
+ "C03": dict(level="exploration", design="5/C03",
+   technique="deterministic simulation family S-A: the whole engine process (I/O thread, search threads, channel, clock, stdin/stdout) under a seeded discrete-event kernel with injected stalls, oversleeps, spawn delays, process pauses; session-model oracle over the recorded history",
+   text="Thousands of seeded GUI sessions (positions by FEN and by moves, go with none/zero/negative/timed clocks, consecutive go commands) are executed under a kernel that owns every interleaving of the search thread with the polling I/O thread; for each go on a non-terminal model position the recorded transcript must hold exactly one well-formed bestmove that is referee-legal, and the model advances by the engine's own answers.",
+   note="Trusted: the seam mirrors std (read_line, mpsc disconnect, panic kills thread, exit); the cost model (c_node per node, 1 us per seam call) stands in for real scheduling, widened by injected delays; the referee. Sampling over schedules x inputs, not proof."),
+ "C08": dict(level="exploration", design="5/C08",
+   technique="deterministic simulation family S-A with timing faults: bounded-liveness oracle on virtual time relative to the engine's own plan and to the delays the simulator injected; exact hang detection on the channel",
+   text="Sessions including checkmated and stalemated positions (by FEN and reached by moves) run under stall/oversleep/spawn-delay/pause faults; every go must be answered (null move when no legal move exists) within plan + 2 poll quanta + injected I/O delay once a move exists, the first move must exist within a small node budget after the deadline, isready must be answered afterwards. A polling loop that can never receive a message is detected exactly, not by timeout.",
+   note="Bounds are relative to the simulator's cost model and injected delays; nothing is established about absolute wall-clock figures of the real binary."),
+ "C09": dict(level="exploration", design="5/C09",
+   technique="deterministic simulation family S-A (measured delay vs the engine's own plan on virtual time, fault-free and with timing faults) plus a configuration sweep of the plan against an exact-arithmetic policy model",
+   text="(i) for every simulated go on a non-terminal position the virtual go->bestmove delay is at least the plan and at most plan + scheduling slack (+ injected delay); (ii) the plan computed by the real parse_go_command + calculate_time_slice is checked against the statement's inequalities over a systematic sweep of clock/increment/movestogo/side values around the margin and sign boundaries, including independence from the opponent's clock.",
+   note="(ii) is arithmetic over configurations (no schedule in it) and is included because the timed clause is only meaningful relative to the plan. Plans too long to simulate are checked in (ii) only."),
 }
 
 NOT_APPLICABLE = [
